@@ -1,6 +1,7 @@
 (* C01 — latest-value store.  Theorems only (proved in Proofs/Broker.v). *)
 From Coq Require Import ZArith Bool List.
-From KD Require Import Model.Values Model.Validate Model.Perm Model.Glob Model.Broker Model.BrokerRun Proofs.Broker.
+From KD Require Import Model.Values Model.Validate Model.Perm Model.Glob Model.Broker Model.BrokerRun Proofs.Broker
+     Model.Api Model.ApiRun Proofs.Api.
 Open Scope Z_scope.
 
 (* A batch that addresses each signal at most once: the response tells the writer exactly what
@@ -59,3 +60,29 @@ Theorem c01_new_signal_not_available : forall db p now clock name dt ct et mn mx
               entries := entries db ++ [(next_id db, e)] |}).
 Proof. exact add_entry_cases. Qed.
 Print Assumptions c01_new_signal_not_available.
+
+(* ---------- the client streams (kuksa.val.v1 StreamedUpdate, sdv StreamDatapoints) ---------- *)
+(* a message of sdv StreamDatapoints is exactly one UpdateDatapoints *)
+Theorem c01_sdv_stream_is_update : forall st p l, sdv_stream_msg st p l = sdv_update st p l.
+Proof. exact sdv_stream_msg_is_update. Qed.
+Print Assumptions c01_sdv_stream_is_update.
+(* a StreamedUpdate message changes the store exactly as one core batch of the elements it can forward: those
+   that name a registered signal and carry no target for a non-actuator, unchanged and in request order; the
+   elements it turns away have no influence on the others *)
+Theorem c01_v1_stream_is_core : forall st p l,
+  fst (v1_stream_msg st p l) = fst (update_entries st p (filter_map (v1_forwardable (st_db st)) l)).
+Proof. exact v1_stream_msg_is_core. Qed.
+Print Assumptions c01_v1_stream_is_core.
+(* every element of the message is either forwarded to the core or answered with an error of its own *)
+Theorem c01_v1_stream_every_element : forall st l,
+  (length (snd (v1_stream_resolve (st_db st) l [] [] 0)) + length (filter_map (v1_forwardable (st_db st)) l)
+   = length l)%nat.
+Proof. exact v1_stream_every_element_answered_or_forwarded. Qed.
+Print Assumptions c01_v1_stream_every_element.
+(* where Set does not refuse the request as a whole, Set and StreamedUpdate hand the same batch to the core *)
+Theorem c01_v1_set_stream_same_core : forall st l ups nf,
+  v1_set_resolve (st_db st) l [] [] 0 = inl (ups, nf) ->
+  fst (v1_stream_resolve (st_db st) l [] [] 0) = ups.
+Proof. exact v1_set_stream_same_core. Qed.
+Print Assumptions c01_v1_set_stream_same_core.
+
